@@ -60,7 +60,7 @@ def _record(self, target, args, kwargs):
     LOG.append((type(self).__name__, target, args, kwargs, self))
     if kwargs.get("fail"):
         raise {"TypeError": TypeError, "KeyError": KeyError, "RuntimeError": RuntimeError, "AssertionError": AssertionError,
-               "LookupError": LookupError, "AttributeError": AttributeError}.get(kwargs["fail"], ValueError)("injected constructor failure")
+               "LookupError": LookupError, "AttributeError": AttributeError, "StopIteration": StopIteration, "OSError": OSError}.get(kwargs["fail"], ValueError)("injected constructor failure")
 
 
 class RecCtrl(Controller):
@@ -139,7 +139,7 @@ def document(draw):
         cand = [i for i, e in enumerate(elems) if e["form"] in ("map", "type")]
         if cand:
             fail_at = draw(st.sampled_from(cand))
-            kind = draw(st.sampled_from(["ValueError", "TypeError", "KeyError", "RuntimeError", "AssertionError", "LookupError", "AttributeError"]))
+            kind = draw(st.sampled_from(["ValueError", "TypeError", "KeyError", "RuntimeError", "AssertionError", "LookupError", "AttributeError", "StopIteration", "OSError"]))
             elems[fail_at]["kwargs"] = [kv for kv in elems[fail_at]["kwargs"] if kv[0] != "fail"] + [["fail", {"s": kind}]]
     doc = {"elems": elems, "fail_at": fail_at, "flow_pipeline": draw(st.integers(0, 5)) == 0,
            "extra": draw(st.one_of(st.none(), values)), "logging": draw(st.integers(0, 4)) == 0,
